@@ -228,6 +228,14 @@ static void run_pass(struct op *ops, int nops, unsigned char fill, struct res *r
     case 'K': asm_set_chunk_size(s->al, (size_t)o->wide); if (s->mir) asm_set_chunk_size(s->mir, (size_t)o->wide); break;
     case 'F': asm_set_offset(s->al, o->a); if (s->mir) asm_set_offset(s->mir, o->a); break;
     case 'G': asm_set_debug(s->al, o->a); break;
+    case 'Q': {
+      /* occupy the address space behind (and a little in front of) the library-managed buffer, so that its next growth cannot happen in
+         place: the kernel has to MOVE the mapping (addresses the library cached before the growth are dead afterwards) */
+      unsigned char *b = asm_get_code(s->al);
+      uintptr_t base = (uintptr_t)b & ~(uintptr_t)(PAGE - 1);
+      for (int pg = 1; pg <= 256; pg++)
+        mmap((void *)(base + (uintptr_t)pg * PAGE), PAGE, PROT_NONE, MAP_PRIVATE | MAP_ANONYMOUS | MAP_FIXED_NOREPLACE, -1, 0);
+      break; }
     case 'J': if (setresgid(65534, 65534, 65534) || setresuid(65534, 65534, 65534)) { } break;   /* the rest of the script runs as an unprivileged user */
     case 'L': { struct rlimit rl; getrlimit(RLIMIT_NOFILE, &rl); rl.rlim_cur = (rlim_t)o->a; setrlimit(RLIMIT_NOFILE, &rl); break; }   /* descriptor limit of this script's process */
     case 'W': tw[0] = o->a; tw[1] = o->b; tw[2] = o->c; tw[3] = o->d; tw[4] = o->e; have_tw = 1; break;
@@ -378,7 +386,7 @@ static void print_events(const char *sid, struct op *ops, int nops, struct res *
     case 'G': if (x->skipped) { printf("{\"e\":\"Skipped\",\"i\":%d}\n", o->i); break; }
       printf("{\"e\":\"SetDebug\",\"i\":%d,\"b\":%d}\n", o->i, o->a); break;
     case 'W': break;
-    case 'L': case 'J': printf("{\"e\":\"Skipped\",\"i\":0}\n"); break;
+    case 'L': case 'J': case 'Q': printf("{\"e\":\"Skipped\",\"i\":0}\n"); break;
     case 'P':
       if (x->skipped) { printf("{\"e\":\"Skipped\",\"i\":%d}\n", o->i); break; }
       printf("{\"e\":\"Probe\",\"i\":%d,\"codes\":[", o->i);
@@ -479,6 +487,7 @@ int main(void) {
     case 'F': case 'G': sscanf(ln + 2, "%d %d", &o->i, &o->a); break;
     case 'L': sscanf(ln + 2, "%d", &o->a); o->i = 0; break;
     case 'J': o->i = 0; break;
+    case 'Q': sscanf(ln + 2, "%d", &o->i); break;
     case 'W': sscanf(ln + 2, "%d %d %d %d %d", &o->a, &o->b, &o->c, &o->d, &o->e); break;
     case 'A': case 'T': hex[0] = 0; sscanf(ln + 2, "%d %7s %31s %4194303s", &o->i, o->flags, o->tag, hex); break;
     case 'N': case 'U': hex[0] = 0; sscanf(ln + 2, "%d %d %7s %31s %4194303s", &o->i, &o->a, o->flags, o->tag, hex); break;
